@@ -308,4 +308,4 @@ def extras(prop, tier, seed):
     """bounded stand-in (never counted as proved): TypesOracle.expand_types / get_types on an
     enumerated family of sorts - its work-list over sort objects is outside pyvc's reach"""
     from pyvc.report import run_bounded
-    return [run_bounded("expand_types", tier, seed)]
+    return [run_bounded("expand_types", tier, seed)] + ([run_bounded("oracles", tier, seed)] if prop == "C12" else [])
